@@ -143,6 +143,34 @@ func genC02(t *rapid.T) any {
 		}
 		c.Items = append(c.Items, SelItem{Expr: e, Alias: "osp"})
 	}
+	if rapid.IntRange(0, 3).Draw(t, "switch") == 0 {
+		// a CASE whose arms each compare a column with a constant - different columns whose names differ only in
+		// letter case, or that share their last path element (obj.k1 and a top-level k1): every arm reads its own column
+		base := pt.Ints[0]
+		twin := strings.ToUpper(base)
+		vals := []float64{1, 2, 3}
+		rows, _ := c.Doc["t"].([]any)
+		for i, r := range rows {
+			if rm, ok := r.(map[string]any); ok {
+				rm[twin] = rapid.SampledFrom(vals).Draw(t, fmt.Sprintf("switch.r%d.twin", i))
+				rm["k1"] = rapid.SampledFrom(vals).Draw(t, fmt.Sprintf("switch.r%d.k1", i))
+			}
+		}
+		a1 := sq.Cmp("=", sq.Col(base), constFor(t, pt.Tb.Col(base), "switch.c1"))
+		a2 := sq.Cmp("=", sq.Col(twin), sq.Num(rapid.SampledFrom(vals).Draw(t, "switch.c2")))
+		if pt.Obj != "" && rapid.Bool().Draw(t, "switch.path") {
+			a1 = sq.Cmp("=?", sq.Col(pt.Obj+".k1"), sq.Num(rapid.SampledFrom(numPool).Draw(t, "switch.c3")))
+			a2 = sq.Cmp("=", sq.Col("k1"), sq.Num(rapid.SampledFrom(vals).Draw(t, "switch.c4")))
+		}
+		if rapid.Bool().Draw(t, "switch.swap") {
+			a1, a2 = a2, a1
+		}
+		var els *sq.E
+		if rapid.Bool().Draw(t, "switch.else") {
+			els = sq.Str("none")
+		}
+		c.Items = append(c.Items, SelItem{Expr: sq.Case([]*sq.E{a1, sq.Str("first"), a2, sq.Str("second")}, els), Alias: "osw"})
+	}
 	if c.Star == 0 && rapid.IntRange(0, 2).Draw(t, "shadow") == 0 {
 		// output names spelled like source columns (SELECT b AS a, a AS b): an alias names an output
 		// column, it never changes what a column reference in another item reads
@@ -291,6 +319,9 @@ func checkC02(c *C02Case) Result {
 		res.Labels = append(res.Labels, fmt.Sprintf("depth:%d", minInt(it.Expr.Depth(), 6)))
 		if it.Alias == "osp" {
 			res.Labels = append(res.Labels, "equality-on-a-sparse-key-in-CASE")
+		}
+		if it.Alias == "osw" {
+			res.Labels = append(res.Labels, "CASE-arms-over-look-alike-columns")
 		}
 		if it.Alias == "oa" {
 			res.Labels = append(res.Labels, "nesting-sensitive-arithmetic")
